@@ -3,6 +3,9 @@
 // turn them into the model's FsOp list, rebuild every prefix crash image on disk with real system
 // calls (two variants: everything written survives / unsynced data is lost) and parse each image
 // with the real reader client.NewConfig: it must be the previous or the new configuration.
+// The config path is a regular file, a symbolic link to the real file in another directory (dotfiles
+// checkout, mounted volume) or a chain of two links; the crash images are rebuilt with the same layout
+// and read through the config path, as the client does on its next start.
 package main
 
 import (
@@ -115,13 +118,11 @@ func parseTrace(trace, cfgPath string) ([]op, error) {
 			return "", false
 		}
 		p = filepath.Clean(p)
-		switch {
-		case p == cfgPath:
-			return "cfg", true
-		case p == cfgPath+".tmp":
-			return "tmp", true
-		case filepath.Dir(p) == dir:
-			return "x" + hlib.HexS(filepath.Base(p)), true
+		if p == filepath.Join(dir, "trace.txt") {
+			return "", false
+		}
+		if rel, err := filepath.Rel(dir, p); err == nil && rel != "." && !strings.HasPrefix(rel, "..") {
+			return relName(rel), true // anything below the case directory (link targets live in sub-directories)
 		}
 		return "", false
 	}
@@ -231,6 +232,74 @@ func parseTrace(trace, cfgPath string) ([]op, error) {
 	return ops, nil
 }
 
+// ---------- names and layout ----------
+
+// relName: model name of a path relative to the directory of the config path.
+func relName(rel string) string {
+	switch rel {
+	case "client.yaml":
+		return "cfg"
+	case "client.yaml.tmp":
+		return "tmp"
+	}
+	return "x" + hlib.HexS(rel)
+}
+
+// namePath: inverse of relName below root.
+func namePath(root, n string) string {
+	switch n {
+	case "cfg":
+		return filepath.Join(root, "client.yaml")
+	case "tmp":
+		return filepath.Join(root, "client.yaml.tmp")
+	}
+	if strings.HasPrefix(n, "x") {
+		if b := hlib.UnHex(n[1:]); len(b) > 0 {
+			return filepath.Join(root, string(b))
+		}
+	}
+	return filepath.Join(root, n)
+}
+
+// chainOf: the relative paths client.yaml leads through; the last one is the regular file.
+// link 0: client.yaml is the file; 1: client.yaml -> real/client.yaml;
+// 2: client.yaml -> dot/client.yaml -> real/client.yaml.
+func chainOf(link int) []string {
+	switch link {
+	case 1:
+		return []string{"client.yaml", "real/client.yaml"}
+	case 2:
+		return []string{"client.yaml", "dot/client.yaml", "real/client.yaml"}
+	}
+	return []string{"client.yaml"}
+}
+
+// layout creates the symbolic links of the chain below root (absolute or relative link texts) and
+// returns the path of the regular file at its end.
+func layout(root string, link int, abs bool) string {
+	ch := chainOf(link)
+	for _, rel := range ch {
+		if err := os.MkdirAll(filepath.Dir(filepath.Join(root, rel)), 0o755); err != nil {
+			panic(err)
+		}
+	}
+	for i := 0; i+1 < len(ch); i++ {
+		from, to := filepath.Join(root, ch[i]), filepath.Join(root, ch[i+1])
+		text := to
+		if !abs {
+			var err error
+			if text, err = filepath.Rel(filepath.Dir(from), to); err != nil {
+				panic(err)
+			}
+		}
+		os.Remove(from)
+		if err := os.Symlink(text, from); err != nil {
+			panic(err)
+		}
+	}
+	return filepath.Join(root, ch[len(ch)-1])
+}
+
 // ---------- crash images ----------
 
 func canon(c *client.Config) string {
@@ -268,26 +337,18 @@ func read(path string) (string, string) { // raw token, canonical parse (or erro
 
 // image rebuilds the crash image after ops[:k] in a fresh directory with real system calls.
 // lossy: writes not followed (within the prefix) by an fsync of the same open file are dropped.
-func image(root string, old, stale []byte, hasStale bool, ops []op, k int, lossy bool) string {
+func image(root string, link int, abs bool, old, stale []byte, hasStale bool, ops []op, k int, lossy bool) string {
 	os.RemoveAll(root)
 	if err := os.MkdirAll(root, 0o755); err != nil {
 		panic(err)
 	}
-	p := func(n string) string {
-		switch n {
-		case "cfg":
-			return filepath.Join(root, "client.yaml")
-		case "tmp":
-			return filepath.Join(root, "client.yaml.tmp")
-		}
-		return filepath.Join(root, n)
-	}
+	p := func(n string) string { return namePath(root, n) }
 	must := func(err error) {
 		if err != nil {
 			panic(err)
 		}
 	}
-	must(os.WriteFile(p("cfg"), old, 0o644))
+	must(os.WriteFile(layout(root, link, abs), old, 0o644))
 	if hasStale {
 		must(os.WriteFile(p("tmp"), stale, 0o644))
 	}
@@ -312,7 +373,8 @@ func image(root string, old, stale []byte, hasStale bool, ops []op, k int, lossy
 	for i := 0; i < k; i++ {
 		o := ops[i]
 		switch o.kind {
-		case "openTrunc":
+		case "openTrunc": // through symbolic links, like the recorded call
+			os.MkdirAll(filepath.Dir(p(o.a)), 0o755)
 			f, err := os.OpenFile(p(o.a), os.O_RDWR|os.O_CREATE|os.O_TRUNC, 0o644)
 			must(err)
 			fds[o.fd] = f
@@ -348,6 +410,8 @@ type scenario struct {
 	Mode  string        `json:"mode"`
 	Arg   string        `json:"arg"`
 	Stale string        `json:"stale"` // content of a left-over client.yaml.tmp ("" = none)
+	Link  int           `json:"link"`  // 0: the config path is a regular file; 1: a symbolic link to the file; 2: link to link to file
+	Abs   bool          `json:"abs"`   // link texts are absolute paths (else relative)
 	Old   client.Config `json:"old"`
 }
 
@@ -367,10 +431,17 @@ func runScenario(r *hlib.Run, sc scenario) {
 	js, _ := json.Marshal(sc)
 	r.Raw("reset")
 	r.Emit("scenario "+hlib.Hex(js), "ok")
-	if err := client.VerifC45Save(cfgPath, sc.Old); err != nil {
+	if sc.Link < 0 || sc.Link > 2 {
+		sc.Link = 0
+	}
+	realPath := layout(dir, sc.Link, sc.Abs) // the regular file the config path leads to
+	if err := client.VerifC45Save(realPath, sc.Old); err != nil {
 		panic(err)
 	}
-	os.Remove(cfgPath + ".tmp")
+	os.Remove(realPath + ".tmp")
+	if fi, err := os.Lstat(cfgPath); err != nil || (fi.Mode()&os.ModeSymlink != 0) != (sc.Link > 0) {
+		panic("layout of the config path is not the requested one")
+	}
 	if sc.Stale != "" {
 		os.WriteFile(cfgPath+".tmp", []byte(sc.Stale), 0o644)
 	}
@@ -393,7 +464,11 @@ func runScenario(r *hlib.Run, sc scenario) {
 	if sc.Stale != "" {
 		staleTok = hlib.HexS(sc.Stale)
 	}
-	r.Emit("init "+hlib.Hex(oldB)+" "+staleTok, "ok")
+	initLine := "init " + hlib.Hex(oldB) + " " + staleTok
+	for _, rel := range chainOf(sc.Link)[1:] {
+		initLine += " " + relName(rel)
+	}
+	r.Emit(initLine, "ok")
 	verdict := func(c string) string {
 		switch c {
 		case oldC:
@@ -408,14 +483,15 @@ func runScenario(r *hlib.Run, sc scenario) {
 	}
 	img := filepath.Join(dir, "img")
 	for k := 1; k <= len(ops); k++ {
-		rawS, cS := read(image(img, oldB, []byte(sc.Stale), sc.Stale != "", ops, k, false))
-		rawL, cL := read(image(img, oldB, []byte(sc.Stale), sc.Stale != "", ops, k, true))
+		rawS, cS := read(image(img, sc.Link, sc.Abs, oldB, []byte(sc.Stale), sc.Stale != "", ops, k, false))
+		rawL, cL := read(image(img, sc.Link, sc.Abs, oldB, []byte(sc.Stale), sc.Stale != "", ops, k, true))
 		r.Emit("op "+ops[k-1].toks(), rawS+" "+verdict(cS)+" "+rawL+" "+verdict(cL))
 		r.Case(sc.Mode + ":" + strconv.Itoa(caseNo) + ":" + strconv.Itoa(k))
 		r.Count("crash-point:after-" + ops[k-1].kind)
 	}
 	r.Emit("shape", "atomic "+hlib.Hex(newB))
 	r.Count("save-via:" + sc.Mode)
+	r.Count("config-path:" + []string{"regular-file", "symlink", "symlink-chain"}[sc.Link])
 	r.Count("ops-per-save:" + strconv.Itoa(len(ops)))
 	if sc.Stale != "" {
 		r.Count("stale-tmp-present")
@@ -431,7 +507,7 @@ func main() {
 		return
 	}
 	r := hlib.Start()
-	r.Rule = "case = one configuration save of the real code (UpdateApex | RebuildTunnels | writeFile after a certificate change) on a random existing configuration, recorded with strace; evaluation = one crash point (prefix of the recorded file operations) x {all written data survives, unsynced data lost}; every crash point of every recorded save is evaluated (exhaustive over the quantifier for that save)"
+	r.Rule = "case = one configuration save of the real code (UpdateApex | RebuildTunnels | writeFile after a certificate change) on a random existing configuration whose path is a regular file | a symbolic link to the file in another directory | a chain of two links (absolute or relative link texts), recorded with strace; evaluation = one crash point (prefix of the recorded file operations) x {all written data survives, unsynced data lost}; every crash point of every recorded save is evaluated (exhaustive over the quantifier for that save)"
 	rng := hlib.NewRng(r.Seed)
 	var err error
 	self, err = os.Executable()
@@ -484,6 +560,9 @@ func main() {
 		if rng.Chance(30) {
 			sc.Stale = "left over from an earlier crash\n" + hlib.Hex(rng.Bytes(rng.Intn(400)))
 		}
+		// every way of saving meets every kind of config path within 9 consecutive cases
+		sc.Link = (i / 3) % 3
+		sc.Abs = rng.Chance(50)
 		switch i % 3 {
 		case 0:
 			sc.Mode, sc.Arg = "apex", "new-"+strconv.Itoa(rng.Intn(1000))+".example:443"
